@@ -351,51 +351,48 @@ def r5_is_ready(cx):
             n += 1
         return False
 
-    true_rets = [bi for bi, b in enumerate(f.blocks) for s in b["s"] if s[0] == "A" and s[1][0] == 0 and not s[1][1] and s[2][0] == "use" and s[2][1][0] == "k" and s[2][1][1].get("int") == "1"]
-    # ---- needs ---------------------------------------------------------------------------------------
-    filt = [c for c in f.calls() if re.search(r"Iterator>::filter$|Iterator::filter$", c.q)]
-    cnt = [c for c in f.calls() if re.search(r"Iterator>::count$|Iterator::count$", c.q)]
+    from vlib.quant import quantifiers
+    qs = [q for q in quantifiers(m, f) if q.closure is not None and q.closure.q in clos and over_siblings(q.source)]
+    # ---- needs: ready iff SOME sibling is terminal and listed in `needs` (any spelling of "some") -----------
     ok = False
     detail = {}
-    if len(filt) == 1 and len(cnt) == 1 and over_siblings(filt[0]):
-        g = closure_arg(filt[0])
-        if g is not None:
-            oc = closure_state_outcomes(m, tables, g)
-            detail = {"closure": {k: v for k, v in oc.items()}}
-            needs_ok = all(oc[s] == "F" for s in T.STATES if s not in T.TERMINAL) and all(oc[s] in ("M", "T") for s in T.TERMINAL)
-            contains = any(c.q.endswith("::contains") for c in g.calls())
-            # return true under count > 0
-            gt = False
-            for tb in true_rets:
-                for gd in guards_of(m, f, tb, mode="value"):
-                    r = gd.root
-                    if r[0] == "bin" and r[1] in ("Gt", "Ge", "Ne") and gd.truth is True and r[2] == ("call", cnt[0].q, cnt[0].b, ()):
-                        k = r[3]
-                        gt = (r[1] == "Gt" and k[0] == "const" and k[1].get("int") == "0") or (r[1] == "Ge" and k[0] == "const" and k[1].get("int") == "1") or (r[1] == "Ne" and k[0] == "const" and k[1].get("int") == "0")
-            ok = needs_ok and contains and gt
+    cand = []
+    for q in qs:
+        if q.kind not in ("exists", "none"):
+            continue
+        if not any(c.q.endswith("::contains") for c in q.closure.calls()):
+            continue
+        cand.append(q)
+    if len(cand) == 1:
+        q = cand[0]
+        oc = closure_state_outcomes(m, tables, q.closure)
+        detail = {"closure": {k: v for k, v in oc.items()}, "spelling": q.kind}
+        needs_ok = all(oc[s] == "F" for s in T.STATES if s not in T.TERMINAL) and all(oc[s] in ("M", "T") for s in T.TERMINAL)
+        ret = q.is_returned(f)
+        ok = needs_ok and ret == (1 if q.kind == "exists" else -1)
     cx.ob("C04.R5", "is_ready:needs", ok, "a needs-branch is ready iff at least one sibling that is terminal and listed in `needs` exists", f.loc(), **detail)
     # ---- else ------------------------------------------------------------------------------------------
-    allc = [c for c in f.calls() if re.search(r"Iterator>::all$|Iterator::all$", c.q)]
-    anyc = [c for c in f.calls() if re.search(r"Iterator>::any$|Iterator::any$", c.q)]
+    true_rets = [bi for bi, b in enumerate(f.blocks) for s in b["s"] if s[0] == "A" and s[1][0] == 0 and not s[1][1] and s[2][0] == "use" and s[2][1][0] == "k" and s[2][1][1].get("int") == "1"]
+    rest = [q for q in qs if q not in cand]
+    skips = [c for c in f.calls() if c.q == T.Q_SET_STATE and pa.root(f, c.args[1])[0] == "agg" and pa.root(f, c.args[1])[2] == "Skipped"]
     ok_all = False
-    if len(allc) == 1 and over_siblings(allc[0]):
-        g = closure_arg(allc[0])
-        if g is not None:
-            oc = closure_state_outcomes(m, tables, g)
-            tset = {s for s, v in oc.items() if v == "T"}
-            ready_ret = any(any(gd.root == ("call", allc[0].q, allc[0].b, ()) and gd.truth is True for gd in guards_of(m, f, tb, mode="alias")) for tb in true_rets)
-            ok_all = tset == {"Skipped"} and all(v in ("T", "F") for v in oc.values()) and ready_ret
-    cx.ob("C04.R5", "is_ready:else-runs", ok_all, "an else branch is ready iff every sibling is Skipped", allc[0].loc if allc else f.loc())
     ok_any = False
-    if len(anyc) == 1 and over_siblings(anyc[0]):
-        g = closure_arg(anyc[0])
-        skips = [c for c in f.calls() if c.q == T.Q_SET_STATE and pa.root(f, c.args[1])[0] == "agg" and pa.root(f, c.args[1])[2] == "Skipped"]
-        if g is not None and len(skips) == 1:
-            oc = closure_state_outcomes(m, tables, g)
-            tset = {s for s, v in oc.items() if v == "T"}
-            guarded = any(gd.root == ("call", anyc[0].q, anyc[0].b, ()) and gd.truth is True for gd in guards_of(m, f, skips[0].b, mode="alias"))
-            ok_any = tset <= (T.TERMINAL - {"Skipped"}) and tset >= {"Completed", "Error", "Aborted"} and guarded
-    cx.ob("C04.R5", "is_ready:else-skipped", ok_any, "an else branch gives up (Skipped) exactly when some sibling ran: completed, failed or was aborted - never because of a skipped or still open sibling", anyc[0].loc if anyc else f.loc())
+    all_loc = any_loc = f.loc()
+    for q in rest:
+        oc = closure_state_outcomes(m, tables, q.closure)
+        tset = {s for s, v in oc.items() if v == "T"}
+        pure = all(v in ("T", "F") for v in oc.values())
+        if q.kind == "forall" and tset == {"Skipped"} and pure:
+            all_loc = q.source.loc
+            # ready (true) exactly under "all siblings skipped"
+            if any(q.holds_at(f, tb) is True for tb in true_rets) or q.is_returned(f) == 1:
+                ok_all = True
+        if q.kind in ("exists", "none") and tset and tset <= (T.TERMINAL - {"Skipped"}) and tset >= {"Completed", "Error", "Aborted"} and pure:
+            any_loc = q.source.loc
+            if len(skips) == 1 and q.holds_at(f, skips[0].b) is (q.kind == "exists"):
+                ok_any = True
+    cx.ob("C04.R5", "is_ready:else-runs", ok_all, "an else branch is ready iff every sibling is Skipped", all_loc)
+    cx.ob("C04.R5", "is_ready:else-skipped", ok_any, "an else branch gives up (Skipped) exactly when some sibling ran: completed, failed or was aborted - never because of a skipped or still open sibling", any_loc)
     # both under `else` and without needs
     cx.floor("C04.R5", 3)
 
